@@ -89,13 +89,15 @@ class StoreView:
 class FontView:
     """One sfnt (master or variable font): HarfBuzz face + lazily read fontTools tables."""
 
-    def __init__(self, data):
+    def __init__(self, data, tt=None):
+        """data: sfnt bytes; or tt: an in-memory TTFont of an incomplete (sparse) master that
+        HarfBuzz cannot interpret: tables only."""
         self.data = data
-        self.tt = TTFont(io.BytesIO(data), lazy=True)
+        self.tt = tt if tt is not None else TTFont(io.BytesIO(data), lazy=True)
         self.order = self.tt.getGlyphOrder()
         self.gid = {n: i for i, n in enumerate(self.order)}
-        self.hb = hbridge.HBFont(data)
-        self.cmap = self.tt.getBestCmap() if "cmap" in self.tt else {}
+        self.hb = hbridge.HBFont(data) if tt is None else None
+        self.cmap = (self.tt.getBestCmap() or {}) if "cmap" in self.tt else {}
         self.kind = "glyf" if "glyf" in self.tt else "cff2" if "CFF2" in self.tt else "cff" if "CFF " in self.tt else None
         self._marks = None
         self._cache = {}
@@ -260,13 +262,21 @@ def observe(view, names, texts):
     return {"glyphs": glyphs, "shape": shaped}
 
 
-def compare_shape(vs, ms, where, out, qint=1):
-    """vs / ms: observe()['shape'] of the variable font / the master.  Appends (fkey, msg)."""
+def compare_shape(vs, ms, where, out, qint=1, ds=None, notes=None):
+    """vs / ms / ds: observe()['shape'] of the variable font / the master / the default master.
+    Appends (fkey, msg).  Substitutions are not variable data: a master whose GSUB shapes a
+    text to other glyphs than the default master is outside 'compatible masters' for that text
+    (noted, not compared); the variable font must agree with the masters where they agree."""
     for t in ms:
         a, b = vs.get(t), ms[t]
         if a is None:
             continue
         if [(x[0], x[1]) for x in a] != [(x[0], x[1]) for x in b]:
+            d = ds.get(t) if ds is not None else None
+            if d is not None and [(x[0], x[1]) for x in d] != [(x[0], x[1]) for x in b]:
+                if notes is not None:
+                    notes.append("masters substitute differently (GSUB is not variable): text not compared")
+                continue
             out.append(("shape:glyph-sequence", "%s text %r: variable font shapes to %s, master to %s" % (where, t, [x[0] for x in a], [x[0] for x in b])))
             continue
         x0a, x0b = a[0][7], b[0][7]
@@ -286,3 +296,47 @@ def compare_shape(vs, ms, where, out, qint=1):
                 if abs(x[fi] - y[fi]) > k:
                     out.append(("shape:" + fname.replace(" ", "-"), "%s text %r glyph #%d %s: %s %s vs master %s, allowed %d" % (where, t, i, x[0], fname, x[fi], y[fi], k)))
                     break
+
+
+def merge_axis_lines(canon):
+    """Geometry-preserving normal form: consecutive straight lines that run in exactly the same
+    axis-parallel direction are one line (the CFF2 charstring specialiser joins them)."""
+    out = []
+    for closed, segs in canon:
+        segs = list(segs)
+        changed = True
+        while changed and len(segs) > 1:
+            changed = False
+            n = len(segs)
+            for i in range(n if closed else n - 1):
+                a, b = segs[i], segs[(i + 1) % n]
+                if a[0] != "L" or b[0] != "L" or a is b:
+                    continue
+                ax, ay = a[2][0] - a[1][0], a[2][1] - a[1][1]
+                bx, by = b[2][0] - b[1][0], b[2][1] - b[1][1]
+                if (ay == 0 and by == 0 and ax * bx > 0) or (ax == 0 and bx == 0 and ay * by > 0):
+                    merged = ("L", a[1], b[2])
+                    if (i + 1) % n == 0:
+                        segs = [merged] + segs[1:i]
+                    else:
+                        segs = segs[:i] + [merged] + segs[i + 2:]
+                    changed = True
+                    break
+        out.append((closed, tuple(segs)))
+    return out
+
+
+def observe_tables(tt, names):
+    """Observation of a static master that is not a complete font (sparse master without
+    hhea/OS-2...): outlines through fontTools' glyph set and the independent segment pen,
+    advances from hmtx; no shaping."""
+    gs = tt.getGlyphSet()
+    glyphs = {}
+    for n in names:
+        pen = geom.SegPen(gs)
+        gs[n].draw(pen)
+        pen._flush(False)
+        raw = pen.contours
+        npts = sum(len(s) - 2 for c in raw for s in c[2]) + len(raw)
+        glyphs[n] = (geom.canon_contours(raw), tt["hmtx"].metrics[n][0], npts, raw)
+    return {"glyphs": glyphs, "shape": {}}
